@@ -91,6 +91,8 @@ type World struct {
 	GW   *Gateway
 	Host map[string]*Host
 	gen  int
+	// Yields: lock, unlock and pool operations of the gateway are scheduling points in this run
+	Yields bool
 }
 
 // NewWorld must be called inside the bubble, on the scheduler goroutine.
@@ -107,6 +109,14 @@ func NewWorld(t *sim.Tape, dir string) *World {
 	simhook.Simulated.Store(true)
 	simhook.Gen.Add(1)
 	simhook.ResetAll()
+	simhook.ResetIDs()
+	// in a third of the runs the gateway's goroutines also park at every lock, unlock and
+	// pool operation of the repository's code, so that the scheduler interleaves them there
+	simhook.OnYield = nil
+	if t.Bool(1, 3) {
+		w.Yields = true
+		simhook.OnYield = func(key string) { w.S.Yield(key) }
+	}
 	protocol.SimReset()
 	gwconfig.SimReset()
 	gwauthconfig.SimReset()
